@@ -15,8 +15,8 @@ Harness:
   C. real files (stdlib + repo): E42 must not occur; E02 must not occur at reads that a
      conservative static oracle knows to succeed (parameters, names bound by an unconditional
      top-level statement, builtins never rebound).
-  D. chains of nested function scopes (depth 2-4, the nested def at any top-level position of the
-     enclosing body): (I) Model/Nested.v (entry = own locals unbound + the enclosing scope's final
+  D. chains of nested scopes (depth 2-4; outermost a function or the module, inner levels functions
+     with parameters or classes; the nested def/class at any top-level position of the enclosing body): (I) Model/Nested.v (entry = own locals unbound + the enclosing scope's final
      environment) vs supp's alternatives and E02 sites at every read of every level; the composed
      theorem C01_nested_visible speaks about exactly that analysis; (R) Model/NestedRun.v run_chain vs
      CPython executing the instrumented chain (each level calls the next as its last statement)
@@ -410,12 +410,12 @@ KNOWN = {
 }
 
 
-def render_nested(bodies, splits, params=None):
+def render_nested(bodies, splits, params=None, top='func', kinds=None):
     """def main(...): <body 0 with `def inner1():` placed before statement splits[0]>, whose body is
     body 1 with `def inner2():` placed before statement splits[1], ...  Returns (source, reads, binds)."""
     import re
     r = pygen.Renderer(False)
-    r.lines.extend(pygen.HEADER_PLAIN['func'].split('\n'))
+    r.lines.extend(pygen.HEADER_PLAIN[top].split('\n'))
 
     def level(k, ind):
         body = bodies[k]
@@ -423,12 +423,15 @@ def render_nested(bodies, splits, params=None):
             j = splits[k]
             r.body(body[:j], ind)
             ps = (params or {}).get(k + 1, [])
-            r.emit(ind, 'def inner%d(%s):' % (k + 1, ', '.join(pygen.mk('d', d, x) + '=g()' for d, x in ps)))
+            if kinds and kinds[k + 1] == 'cls':
+                r.emit(ind, 'class Inner%d:' % (k + 1))
+            else:
+                r.emit(ind, 'def inner%d(%s):' % (k + 1, ', '.join(pygen.mk('d', d, x) + '=g()' for d, x in ps)))
             level(k + 1, ind + 1)
             r.body(body[j:], ind)
         else:
             r.body(body, ind)
-    level(0, 1)
+    level(0, 0 if top == 'module' else 1)
     reads, binds, out = {}, {}, []
     for ln, line in enumerate(r.lines, 1):
         while True:
@@ -445,7 +448,7 @@ def render_nested(bodies, splits, params=None):
     return '\n'.join(out) + '\n', reads, binds
 
 
-def render_nested_instrumented(bodies, splits, params=None):
+def render_nested_instrumented(bodies, splits, params=None, top='func'):
     """the same chain for CPython: every function defines the next one before statement splits[k] of
     its body and calls it as its last statement (bodies are already cut at the call point)"""
     r = pygen.Renderer(True)
@@ -453,7 +456,8 @@ def render_nested_instrumented(bodies, splits, params=None):
     def level(k, ind):
         body = bodies[k]
         ps = (params or {}).get(k, [])
-        r.emit(ind - 1, 'def %s(%s):' % ('main' if k == 0 else 'inner%d' % k, ', '.join('%s=%s' % (x, r.tagged([(d, x)], [])) for d, x in ps)))
+        if not (k == 0 and top == 'module'):
+            r.emit(ind - 1, 'def %s(%s):' % ('main' if k == 0 else 'inner%d' % k, ', '.join('%s=%s' % (x, r.tagged([(d, x)], [])) for d, x in ps)))
         if k + 1 < len(bodies):
             j = splits[k]
             r.body(body[:j], ind)
@@ -463,9 +467,12 @@ def render_nested_instrumented(bodies, splits, params=None):
         else:
             r.body(body, ind)
             r.emit(ind, 'pass')
-    level(0, 1)
-    r.lines.append('def _go():')
-    r.lines.append('    main()')
+    if top == 'module':
+        level(0, 0)         # the module body itself is level 0: its bindings are globals
+    else:
+        level(0, 1)
+        r.lines.append('def _go():')
+        r.lines.append('    main()')
     return '\n'.join(r.lines) + '\n'
 
 
@@ -481,11 +488,11 @@ Definition check_chain (k : list cmd * list nat * trace) : bool :=
 
 (* (I) for Model/Nested.v: supp's alternatives at every read of the body [ci] nested in [outers],
    and the E02 sites among its reads *)
-Definition check_nested (k : list cmd * cmd * list (N * list alt) * list N) : bool :=
+Definition check_nested (k : list lvl * lvl * list (N * list alt) * list N) : bool :=
   match k with
-  | (outers, ci, obs, e02s) =>
-      forallb (fun ra => set_eq_alt (seen_nested outers ci (fst ra)) (snd ra)) obs &&
-      set_eq_N (filter (fun r => e02_nested outers ci r) (map fst (reads ci))) e02s
+  | (outers, l, obs, e02s) =>
+      forallb (fun ra => set_eq_alt (seen_k outers l (fst ra)) (snd ra)) obs &&
+      set_eq_N (filter (fun r => e02_k outers l r) (map fst (reads (snd l)))) e02s
   end.
 '''
 
@@ -498,14 +505,21 @@ def part_d(ctx):
     terms, meta = [], []
     rterms, rmeta, rbad = [], [], []
     depth_hist = {}
+    top_hist = {}
+    kind_hist = {}
     for k in range(nchain):
         depth = ctx.rng.choice([2, 2, 3, 3, 4])
         names = ctx.rng.choice([pygen.POOL[:3], pygen.POOL[:4], pygen.POOL])
         g = pygen.Gen(ctx.rng, allow_return=True, exits=True, max_stmts=6, names=names)
         bodies, ranges, params = [], [], {}
+        top = ctx.rng.choice(['func', 'func', 'module'])    # the outermost body: a function or the module itself
+        kinds = ['fun'] + [ctx.rng.choice(['fun', 'fun', 'cls']) for _ in range(depth - 1)]
+        if ctx.rng.random() < 0.5:
+            kinds = ['fun'] * depth          # half of the chains: functions only (those also run under CPython)
         for lvl_ in range(depth):
+            g.allow_return = not (lvl_ == 0 and top == 'module') and kinds[lvl_] == 'fun'
             lo = g.site
-            if lvl_ > 0:
+            if lvl_ > 0 and kinds[lvl_] == 'fun':
                 # parameters (with defaults) of the nested function: bound at entry, before the body
                 pn = ctx.rng.sample(names, ctx.rng.choice([0, 0, 1, 2]))
                 params[lvl_] = [(g.new(), x) for x in pn]
@@ -515,19 +529,21 @@ def part_d(ctx):
             ranges.append((lo, g.site))
         splits = [ctx.rng.randrange(0, len(b)) for b in bodies]
         try:
-            src, reads, binds = render_nested(bodies, splits, params)
+            src, reads, binds = render_nested(bodies, splits, params, top, kinds)
             obs = rc.observe_supp(ctx, src, reads, binds)
         except Exception as e:
             ctx.violation('supp raised %s: %s on a generated chain of nested functions' % (type(e).__name__, e),
                           {'kind': 'crash-D', 'bodies': bodies, 'splits': splits})
             continue
         depth_hist[depth] = depth_hist.get(depth, 0) + 1
+        top_hist[top] = top_hist.get(top, 0) + 1
         if obs['unknown_alt']:
             ctx.violation('supp lists a definition that is no binding site of the program: %r' % (obs['unknown_alt'][:2],),
                           {'kind': 'direct-D', 'source': src})
             continue
         passign = {i: [('assign', [], [(d_, x_)], 'plain') for d_, x_ in params.get(i, [])] for i in range(depth)}
         mcoq = lambda i, b: pygen.body_coq(passign[i] + b)      # model body: parameters are bindings at the head
+        kcoq = lambda i, b: '(%s, %s)' % ('KCls' if kinds[i] == 'cls' else 'KFun', mcoq(i, b))
         for lvl in range(depth):
             lo, hi = ranges[lvl]
             items = []
@@ -542,16 +558,19 @@ def part_d(ctx):
             free = any(lo < s_ <= hi and any(a is not None and not (lo < a <= hi) for a in (obs['seen'][s_] if obs['seen'][s_] != 'E42' else []))
                        for s_ in obs['seen'])
             ctx.count(('D', src, lvl), nontrivial=free)
-            terms.append('([%s], %s, [%s], [%s])' % ('; '.join(mcoq(i, b) for i, b in enumerate(bodies[:lvl])), mcoq(lvl, bodies[lvl]),
+            terms.append('([%s], %s, [%s], [%s])' % ('; '.join(kcoq(i, b) for i, b in enumerate(bodies[:lvl])), kcoq(lvl, bodies[lvl]),
                                                     '; '.join(items), '; '.join(str(x) for x in e02s)))
             meta.append((src, lvl, bodies, splits))
+        kind_hist[tuple(kinds)] = kind_hist.get(tuple(kinds), 0) + 1
+        if 'cls' in kinds:
+            continue        # a class body runs where it stands, not when called: (I) only
         # (R): cut every body at a call point behind the nested def, run under CPython
         cuts = [ctx.rng.randint(splits[i], len(bodies[i])) for i in range(depth)]
         tbodies = [bodies[i][:cuts[i]] for i in range(depth)]
         tsplits = [min(splits[i], len(tbodies[i])) for i in range(depth)]
-        code = render_nested_instrumented(tbodies, tsplits, params)
+        code = render_nested_instrumented(tbodies, tsplits, params, top)
         try:
-            runs, _ex = rc.enumerate_decisions(rc.Oracle(code, 'func', cont=True), cap)
+            runs, _ex = rc.enumerate_decisions(rc.Oracle(code, top, cont=True), cap)
         except SyntaxError as e:
             ctx.violation('the instrumented chain does not compile: %s' % e, {'kind': 'harness-D', 'code': code}, found_input=False)
             continue
@@ -569,8 +588,8 @@ def part_d(ctx):
                         'instrumented': code, 'decisions': runs[-1][0], 'trace': runs[-1][1][:12]})
     for code, what, eff in rbad[:3]:
         ctx.violation(what, {'kind': 'harness-D', 'code': code, 'decisions': eff}, found_input=False)
-    bad = ctx.run_cases(rc.IMPORTS + ['Model.Nested', 'Model.NestedRun'], NESTED_PRELUDE, 'check_nested', terms, shard=150)
-    bad_r = ctx.run_cases(rc.IMPORTS + ['Model.Nested', 'Model.NestedRun'], NESTED_PRELUDE, 'check_chain', rterms, shard=300)
+    bad = ctx.run_cases(rc.IMPORTS + ['Model.Nested', 'Model.NestedRun', 'Model.NestedCls'], NESTED_PRELUDE, 'check_nested', terms, shard=150)
+    bad_r = ctx.run_cases(rc.IMPORTS + ['Model.Nested', 'Model.NestedRun', 'Model.NestedCls'], NESTED_PRELUDE, 'check_chain', rterms, shard=300)
     cov['D_executions'] = len(rterms)
     cov['D_ref_disagreements'] = len(bad_r)
     if bad_r:
@@ -578,6 +597,8 @@ def part_d(ctx):
         ctx.violation('(R) correspondence Model/NestedRun.v vs CPython (or the instance of C01_chain_run_visible) no longer checks on %d executions of chains of nested functions' % len(bad_r),
                       {'kind': 'correspondence-ref-nested', 'theorem': 'run_chain semantics / C01_chain_run_visible', 'code': code, 'decisions': eff, 'trace': log}, found_input=False)
     cov['D_chains'] = nchain
+    cov['D_outermost'] = dict(top_hist)
+    cov['D_chains_with_class_levels'] = sum(v for k_, v in kind_hist.items() if 'cls' in k_)
     cov['D_chain_depths'] = {str(a): b for a, b in sorted(depth_hist.items())}
     cov['D_levels_compared'] = len(terms)
     cov['D_disagreements'] = len(bad)
